@@ -7,6 +7,7 @@ import ast
 from ..core import Ctx, RuleResult, finding, short, walk_no_nested
 from ..model import AnalysisError, norm
 from ..rules import exc, snap
+from ..rules.defuse import DefUse
 from ..rules.exc import ExcEngine
 from ..rules.util import callee_name, calls_in, cfg_of, nodes_where
 
@@ -18,6 +19,7 @@ EXPLANATION = (
     "(5) emit visits every handler: the dispatch is a plain loop with no early exit or short-circuit, the result is accumulated and returned; (7) disconnect() identifies the handler by every field connect() stores except the key; (6) ALIAS: the handler list registered for (sender, signal) is only edited in place and never replaced - connect() holds an alias to it across the creation of the weak references, whose callbacks may disconnect at that very moment."
     ' Added after seed round 3: (8) _prepare_user_args returns tuples it built itself (a snapshot of the connect-time arguments).'
     " Round 4: (9) callbacks are compared by equality, never identity; (10) MetaSignals.__init__ extends only the class's own signal list (from the class dict) or a fresh one."
+    " Round-4 triage: (11) every loop over a handler list whose body compares (==) or calls iterates a snapshot - emit and disconnect; every dereferenced weak reference in the module is tested by identity with None (a live sender may be falsy)."
 )
 NOT_DECIDED = "Call order and argument order for all histories (list semantics), garbage-collection timing, behaviour for handlers connected/disconnected mid-emit beyond 'handlers that stay connected are called once'."
 ASSUMPTIONS = []
@@ -376,6 +378,74 @@ def rule_meta_fresh(ctx: Ctx) -> RuleResult:
     return rr
 
 
+def rule_foreign_code(ctx: Ctx) -> RuleResult:
+    """Two places where Signals runs code it does not control:
+    (a) comparing stored handlers with == (disconnect) can call a callback's __eq__, and any allocation can start a
+        garbage collection whose weak-reference callbacks edit the handler list in place (disconnect_by_key):
+        every loop over a handler list whose body compares or calls iterates a snapshot, as emit() does;
+    (b) a dereferenced weak reference (`o = ref()`) is `None` when dead - and possibly *falsy* when alive (an empty
+        list walker is a sender): the liveness test is an identity test with None, in every function of the module."""
+    p = ctx.p
+    rr = RuleResult("SNAP", "C14.11", "loops over a handler list that compare or call iterate a snapshot; dereferenced weak references are tested by identity with None", floor=3)
+    cls = p.cls(SIG)
+    for fi in p.all_class_functions(cls):
+        du = None
+        for n in fi.own_nodes():
+            if not isinstance(n, ast.For):
+                continue
+            it = n.iter
+            inner = it
+            snap_ = False
+            if isinstance(it, ast.Call) and isinstance(it.func, ast.Name) and it.func.id in ("list", "tuple") and it.args:
+                inner, snap_ = it.args[0], True
+            elif isinstance(it, ast.Subscript) and isinstance(it.slice, ast.Slice):
+                inner, snap_ = it.value, True
+            if not isinstance(inner, ast.Name):
+                continue
+            du = du or DefUse(fi)
+            heads = du.cfg.stmt_nodes(n)
+            at = du.node_of(n) or (heads[0] if heads else None)
+            src = ast.unparse(du.expand(inner, at)) if at is not None else ""
+            if "_signal_attr" not in src:
+                continue
+            foreign = [x for b in n.body for x in ast.walk(b) if (isinstance(x, ast.Compare) and any(isinstance(o, (ast.Eq, ast.NotEq)) for o in x.ops)) or isinstance(x, ast.Call)]
+            if not foreign:
+                continue
+            rr.inst(f"{short(fi)}: for over {norm(inner, 30)}", True, {"function": short(fi), "loop": norm(n, 70), "snapshot": snap_, "foreign": norm(foreign[0], 50)})
+            if not snap_:
+                rr.add(finding("SNAP", fi, n, f"`{norm(n, 60)}` iterates the live handler list while its body runs `{norm(foreign[0], 50)}`: a callback's __eq__ or a garbage collection firing weak-reference callbacks (disconnect_by_key edits the list in place) shifts the entries under the loop, which then skips the handler it was looking for", construct=f"{fi.name}: live handler list iterated while comparing / calling"))
+    # (b)
+    for fi in p.functions.values():
+        if fi.module.name != "urwid.signals":
+            continue
+        refs = set()
+        scope = fi
+        while scope is not None:
+            for a in scope.own_nodes():
+                if isinstance(a, ast.Assign) and isinstance(a.value, ast.Call) and ast.unparse(a.value.func) in ("weakref.ref", "ref"):
+                    refs |= {t.id for t in a.targets if isinstance(t, ast.Name)}
+            scope = getattr(scope, "parent", None)
+        derefs = {}
+        for a in fi.own_nodes():
+            if isinstance(a, ast.Assign) and isinstance(a.value, ast.Call) and isinstance(a.value.func, ast.Name) and a.value.func.id in refs and not a.value.args:
+                for t in a.targets:
+                    if isinstance(t, ast.Name):
+                        derefs[t.id] = a
+        for name, a in derefs.items():
+            for t in fi.own_nodes():
+                test = t.test if isinstance(t, (ast.If, ast.While, ast.IfExp)) else None
+                if test is None:
+                    continue
+                truthy = [x for x in ([test] + (list(test.values) if isinstance(test, ast.BoolOp) else []) + ([test.operand] if isinstance(test, ast.UnaryOp) and isinstance(test.op, ast.Not) else [])) if isinstance(x, ast.Name) and x.id == name]
+                ident = any(isinstance(x, ast.Compare) and isinstance(x.left, ast.Name) and x.left.id == name and isinstance(x.ops[0], (ast.Is, ast.IsNot)) for x in ast.walk(test))
+                if not truthy and not ident:
+                    continue
+                rr.inst(f"{short(fi)}: liveness of {name}", True, {"function": short(fi), "deref": norm(a, 40), "test": norm(test, 40)})
+                if truthy:
+                    rr.add(finding("SNAP", fi, t, f"`{norm(test, 40)}` tests the dereferenced weak reference `{name}` by truthiness: a live sender that is falsy (an empty list walker, an empty container) is taken for dead - here the handler of a dead weak argument is never removed from it", construct=f"truthiness test of dereferenced weak reference {name}"))
+    return rr
+
+
 def run(ctx: Ctx):
     p = ctx.p
     out = [
@@ -391,6 +461,7 @@ def run(ctx: Ctx):
         rule_emit_total(ctx),
         rule_list_identity(ctx),
         rule_disconnect_fields(ctx),
+        rule_foreign_code(ctx),
     ]
     return out
 
@@ -399,6 +470,9 @@ from ..mutants import Mut  # noqa: E402
 
 _F = "urwid/signals.py"
 MUTANTS = [
+    Mut("disconnect-iterates-live-list", "urwid/signals.py", "Signals.disconnect", "for h in list(handlers):", "for h in handlers:", "SNAP|signals.Signals.disconnect"),
+    Mut("weakref-callback-truthiness", "urwid/signals.py", "Signals.connect", "            if o is not None:\n", "            if o:\n", "SNAP|signals.Signals.connect.<locals>.weakref_callback"),
+    Mut("twin-disconnect-tuple-snapshot", "urwid/signals.py", "Signals.disconnect", "for h in list(handlers):", "for h in tuple(handlers):", twin=True),
     Mut("disconnect-prefilter-by-identity", "urwid/signals.py", "Signals.disconnect", "        handlers = signals[name]\n", "        handlers = signals[name]\n        if not any(h[1] is callback for h in handlers):\n            return None\n", "KIND|signals.Signals.disconnect"),
     Mut("meta-signals-extends-inherited-list", "urwid/signals.py", "MetaSignals.__init__", "signals = d.get(\"signals\", [])", "signals = getattr(cls, \"signals\", [])", "FRESH|signals.MetaSignals.__init__"),
     Mut("user-args-not-copied", "urwid/signals.py", "Signals._prepare_user_args", "args = tuple(user_args) or ()", "args = user_args or ()", "SNAP|signals.Signals._prepare_user_args"),
@@ -412,7 +486,7 @@ MUTANTS = [
     Mut("disconnect-by-key-raises", _F, "Signals.disconnect_by_key", "handlers[:] = [h for h in handlers if h[0] is not key]", "handlers.remove(next(h for h in handlers if h[0] is key))", "EXC|"),
     Mut("connect-append-before-check", _F, "Signals.connect", "raise NameError(f\"No such signal {name!r} for object {obj!r}\")", "pass", ("EXC|", "ORDER|")),
     Mut("handler-list-replaced", _F, "Signals.disconnect_by_key", "handlers = setdefaultattr(obj, self._signal_attr, {}).get(name, [])\n        handlers[:] = [h for h in handlers if h[0] is not key]", "signals = setdefaultattr(obj, self._signal_attr, {})\n        if name in signals:\n            signals[name] = [h for h in signals[name] if h[0] is not key]", "ALIAS|"),
-    Mut("disconnect-ignores-user-arg", _F, "Signals.disconnect", "        for h in handlers:\n            if h[1:] == (callback, user_arg, user_args):\n                return self.disconnect_by_key(obj, name, h[0])", "        for key, h_callback, _h_user_arg, h_user_args in handlers:\n            if h_callback == callback and h_user_args == user_args:\n                return self.disconnect_by_key(obj, name, key)", "TAB|signals.Signals.disconnect"),
+    Mut("disconnect-ignores-user-arg", _F, "Signals.disconnect", "        for h in list(handlers):  # comparing may run foreign code (__eq__, weak reference callbacks)\n            if h[1:] == (callback, user_arg, user_args):\n                return self.disconnect_by_key(obj, name, h[0])", "        for key, h_callback, _h_user_arg, h_user_args in list(handlers):\n            if h_callback == callback and h_user_args == user_args:\n                return self.disconnect_by_key(obj, name, key)", "TAB|signals.Signals.disconnect"),
     Mut("twin-tuple-snapshot", _F, "Signals.emit", "in list(handlers):", "in tuple(handlers):", twin=True),
     Mut("twin-rename-accumulator", _F, "Signals.emit", "result = False", "result = False  # accumulator", twin=True),
     Mut("twin-slice-snapshot", _F, "Signals.emit", "in list(handlers):", "in handlers[:]:", twin=True),
